@@ -34,6 +34,10 @@ char *__wrap_getenv(const char *name)
     return __real_getenv(name);
 }
 FILE *__real_fopen(const char *, const char *); int __real_fclose(FILE *);
+/* ---- rand(): %random picks a word with it; the harness answers with the ends of its range (the library seeds once per process with pid*time) */
+static int g_rand_on, g_rand_value;
+int __real_rand(void);
+int __wrap_rand(void) { return g_rand_on ? g_rand_value : __real_rand(); }
 /* ---- spawn trap */
 static int g_spawns; static char g_spawn_what[200];
 static int trap(const char *what, const char *arg) { g_spawns++; snprintf(g_spawn_what, sizeof g_spawn_what, "%s(%.150s)", what, arg ? arg : ""); return 0; }
